@@ -242,7 +242,7 @@ func equalsTerm(t types.Type, x, y value) *term {
 		if x.t == nil {
 			return termTrue
 		}
-		if !types.Comparable(x.t) {
+		if x.t != rtypeType && x.t != errorType && !types.Comparable(x.t) {
 			panic(targetPanicMsg("runtime error: comparing uncomparable type " + x.t.String()))
 		}
 		return equalsTerm(x.t, x.v, yi.v)
